@@ -37,9 +37,16 @@ HUGE = 2 ** 1024   # an integer with no finite double
 FLT_SMALL = [0.0, -0.0, 0.5, -2.5, 3.0, 1e300, 5e-324, -1.7976931348623157e308, 2.0 ** 55, 9007199254740993.0]
 
 
+class RI(Fraction):
+    """an integral value held as a rational (e.g. the result of 1r2 + 1r2): whether that is
+    an integer or a rational is an implementation detail, so nests try both"""
+
+
 def kind(x):
     if isinstance(x, float):
         return "f"
+    if isinstance(x, RI):
+        return "r"
     if isinstance(x, Fraction) and x.denominator != 1:
         return "r"
     return "i"
@@ -116,6 +123,9 @@ UND = ("e", ("evaluation_error", "undefined"))
 ZDIV = ("e", ("evaluation_error", "zero_divisor"))
 
 
+SKIP = ("skip",)
+
+
 def TE(t, culprit=None):
     return ("e", ("type_error", t, culprit))
 
@@ -181,10 +191,22 @@ UNARY = ["sqrt"] + TRANSC + ["float", "float_integer_part", "float_fractional_pa
 BINARY = ["/", "**", "^", "atan2", "+", "-", "*", "min", "max"]
 
 
+def _akey(a):
+    if a[0] == "v":
+        v = a[1]
+        if isinstance(v, float):
+            return ("v", "f", struct.pack("<d", v), a[2])
+        return ("v", "x", Fraction(v), a[2])
+    return a
+
+
 def dedup(alts):
     out = []
+    seen = set()
     for a in alts:
-        if a not in out:
+        k = _akey(a)
+        if k not in seen:
+            seen.add(k)
             out.append(a)
     return out
 
@@ -260,6 +282,8 @@ def ref_binary(op, a, b):
         if both_exact:
             fa, fb = Fraction(a), Fraction(b)
             r = fa + fb if op == "+" else fa - fb if op == "-" else fa * fb
+            if kind(a) == "i" and kind(b) == "i":
+                return [V(int(r))]
             return [V(r)]
         try:
             fa, fb = to_float(a), to_float(b)
@@ -297,6 +321,8 @@ def ref_binary(op, a, b):
     if op in ("**", "^"):
         int_int = kind(a) == "i" and kind(b) == "i"
         if op == "^" and int_int:
+            if abs(a) > 1 and b > 4096:
+                return [SKIP]    # astronomically large exact result: not executed at all
             r = N.int_binop("^", int(a), int(b))
             if isinstance(r, tuple):
                 return [("e", r[1])]
@@ -327,9 +353,19 @@ def ref_binary(op, a, b):
         else:
             cands = [b]
         alts = []
+        mixed_exact = both_exact and kind(a) != kind(b)
+        if mixed_exact:
+            # int vs rational is outside the statement (no float involved); an implementation
+            # that compares the two through doubles is tolerated
+            try:
+                fa, fb = to_float(a), to_float(b)
+                if fa == fb:
+                    cands = [a, b]
+            except Ovf:
+                alts.append(OVF)
         for w in cands:
             alts.append(V(w))
-            if is_exact(w) and not both_exact:
+            if is_exact(w) and (not both_exact or mixed_exact):
                 try:
                     alts.append(V(to_float(w)))
                 except Ovf:
@@ -358,14 +394,17 @@ def ref_eval(t):
                 out.extend(ref_binary(op, vals[0], vals[1]))
             return
         for alt in args[i]:
-            if alt[0] == "e":
-                if alt not in out:
-                    out.append(alt)
+            if alt[0] == "skip":
+                out.append(alt)
+            elif alt[0] == "e":
+                out.append(alt)
             else:
                 v = alt[1]
                 if isinstance(v, Fraction) and v.denominator == 1:
-                    v = int(v)
-                rec(i + 1, vals + [v])
+                    rec(i + 1, vals + [int(v)])
+                    rec(i + 1, vals + [RI(v)])
+                else:
+                    rec(i + 1, vals + [v])
     rec(0, [])
     return dedup(out)
 
